@@ -77,6 +77,18 @@ def gen_case(rng, tier, idx):
             lines.append(text)
     case = {"cfg": cfg, "lines": lines, "no_obfuscate": rng.sample(["hostname", "ip", "keyword", "mac", "password"], rng.choice([0, 0, 0, 1, 2])),
             "no_redact": rng.random() < 0.1}
+    if rng.random() < 0.08:
+        # nothing at all is active for this spec: every obfuscator opted out, no exclusion pattern, no keyword
+        case["no_obfuscate"] = ["hostname", "ip", "ipv6", "mac", "password"] + (["keyword"] if rng.random() < 0.6 else [])
+        if "keyword" not in case["no_obfuscate"]:
+            cfg["keywords"] = []
+        if rng.random() < 0.5:
+            cfg["patterns"] = None
+        else:
+            case["no_redact"] = True
+        if rng.random() < 0.6:
+            case["lines"] = [""] * rng.randint(1, 5)
+        return case
     if rng.random() < 0.3:
         # a filterable spec: the allow-list (filter -> match budget) is part of the configuration; the collector
         # hands the same dictionary object to every cleaning of that spec
@@ -278,7 +290,10 @@ def run_shard(ctx):
                 ctx.count("empty_results_checked")
                 if out != []:
                     ctx.violation("blank-only-result-not-dropped", {"result": out[:5]})
-                if c["lines"] and any(c["lines"]):
+                # a spec that opts out of every obfuscator and of redaction is by design not cleaned by the provider at
+                # all (spec_factory: "Skipping cleaning"), so nothing is "left" blank by cleaning there
+                uncleaned = c["no_redact"] and set(c["no_obfuscate"]) >= set(["hostname", "ip", "ipv6", "keyword", "mac", "password"])
+                if c["lines"] and not uncleaned:
                     if ref.get("write") != "content-exception" or ref.get("write_file_exists"):
                         ctx.violation("empty-spec-stored", {"write": ref.get("write"), "file_exists": ref.get("write_file_exists")})
                     if ref.get("clean_file_exists") is not False:
